@@ -212,6 +212,15 @@ class BodyStructure(Writeable):
     def _value(self) -> List:
         raise NotImplementedError
 
+    @property
+    def _disposition(self) -> List | Nil:
+        # body-fld-dsp = "(" string SP body-fld-param ")" / nil
+        header = self.content_disposition
+        if header is None or header.content_disposition is None:
+            return Nil()
+        return List([String.build(header.content_disposition),
+                     _ParamsList(header.params)])
+
     def write(self, writer: WriteStream) -> None:
         self._value.write(writer)
 
@@ -259,7 +268,7 @@ class MultipartBodyStructure(BodyStructure):
         parts = [part.extended for part in self.parts]
         return List([_Concatenated(parts), String.build(self.subtype),
                      _ParamsList(self.content_type_params),
-                     String.build(self.content_disposition),
+                     self._disposition,
                      String.build(self.content_language),
                      String.build(self.content_location)])
 
@@ -323,7 +332,7 @@ class ContentBodyStructure(BodyStructure):
                                   fallback=b'7BIT'),
                      Number(self.size),
                      String.build(self.body_md5),
-                     String.build(self.content_disposition),
+                     self._disposition,
                      String.build(self.content_language),
                      String.build(self.content_location)])
 
@@ -383,7 +392,7 @@ class TextBodyStructure(ContentBodyStructure):
                                   fallback=b'7BIT'),
                      Number(self.size), Number(self.lines),
                      String.build(self.body_md5),
-                     String.build(self.content_disposition),
+                     self._disposition,
                      String.build(self.content_language),
                      String.build(self.content_location)])
 
@@ -453,7 +462,7 @@ class MessageBodyStructure(ContentBodyStructure):
                      self.body_structure.extended,
                      Number(self.lines),
                      String.build(self.body_md5),
-                     String.build(self.content_disposition),
+                     self._disposition,
                      String.build(self.content_language),
                      String.build(self.content_location)])
 
